@@ -48,6 +48,12 @@ pub fn templates() -> Vec<&'static str> {
         "[$0].map(x, [x, $1])", "{'a': $0}.map(k, k)", "{'a': $0, 'b': $1}.filter(k, k != $2)", "[1, 2].filter(x, $0)",
         "[$0].map(x, {'k': $1})", "[$0].map(x, x)[0]", "[[$0]].map(x, x.map(y, y + $1))", "[1, 2, 3].all(x, x > $0 || $1)",
         "[$0, $1].map(x, x ? 'y' : 'n')", "[1].map(x, $0 ? $1 : $2)", "[1].map(x, match $0 { case $1: x, case _: $2 })",
+        // a foldable call around a construct that absorbs failures around a macro reading a variable
+        "string(match [1].map(x, $0) { case list: 'L', case _: 'other' })",
+        "string([1].map(x, $0) == [$1] || $2)", "size([[1].filter(x, $0)].map(y, y || true))",
+        "string(match [1].all(x, $0) { case bool: 'B', case _: 'other' })", "int(string(int($0)))",
+        "[1].map(x, int(string($0)))", "int(f'{int($0)}')", "string(match {'a': $0}.b { case _: 'any' })",
+
     ];
     t.dedup();
     t
